@@ -375,6 +375,9 @@ where
     let inputs = public_inputs(&spec, &clean);
     let mut main = clean.clone();
     let mut verifier_inputs = inputs.clone();
+    // what the prover seeds its transcript with: the honest inputs, except for a Byzantine prover,
+    // which argues for the claimed (false) statement
+    let mut prover_inputs = inputs.clone();
     let mut aux_fault = None;
     let mut frng = tape::fork(Stream::Faults, "fault.values");
     // step classes: first / interior / last non-exempt / exempt tail / an asserted cell
@@ -387,7 +390,7 @@ where
             _ => n - 1,
         }
     };
-    let kind = tape::weighted(Stream::Faults, "fault.kind", &[6, 2, 1, 2, 2, 2]);
+    let kind = tape::weighted(Stream::Faults, "fault.kind", &[6, 2, 1, 2, 2, 2, 5]);
     let kind_name;
     match kind {
         0 => {
@@ -422,18 +425,35 @@ where
                 return Ok(());
             }
             let step = pick_step(tape::f("fault.step.class", 5));
-            aux_fault = Some(AuxFault { col: tape::f("fault.auxcol", spec.aux_width as u64) as usize, step });
+            aux_fault = Some(AuxFault::flip(tape::f("fault.auxcol", spec.aux_width as u64) as usize, step));
             kind_name = "aux_cell_flip";
         },
-        _ => {
+        5 => {
             let i = tape::f("fault.input", verifier_inputs.values.len() as u64) as usize;
             verifier_inputs.values[i] += B::ONE;
             kind_name = "public_input_skew";
         },
+        _ => {
+            // A Byzantine prover's witness crafted against coefficient reuse: two requirements with
+            // a pole at the same domain point are violated by errors whose residues cancel exactly
+            // when the two composition coefficients are EQUAL. With independent coefficients (the
+            // protocol as specified) the statement is false and rejected; a prover / verifier pair
+            // that hands the same coefficient to both constraints accepts it.
+            match crafted_cancellation::<B>(&spec, &clean, &mut frng) {
+                Some((m, claimed, af, name)) => {
+                    main = m;
+                    verifier_inputs = claimed;
+                    aux_fault = af;
+                    prover_inputs = verifier_inputs.clone();
+                    kind_name = name;
+                },
+                None => return Ok(()),
+            }
+        },
     }
     stats::sample(|| format!("{{\"fault\":\"{kind_name}\",\"instance\":{}}}", inst.describe()));
     reset_histories();
-    let outcome = prove_node::<B, H>(inst, &spec, &inputs, main.clone(), aux_fault);
+    let outcome = prove_node::<B, H>(inst, &spec, &prover_inputs, main.clone(), aux_fault);
     let aux = take_captured_aux();
     let proof = match outcome {
         ProveOutcome::Proof(p) => p,
@@ -471,6 +491,147 @@ where
             }
         },
     }
+}
+
+/// rows `from + 1 ..` of `main` recomputed by the transition rules from row `from` (exempt tail of
+/// free columns left as it is)
+fn recompute_forward<B: StarkField>(spec: &Spec<B>, main: &mut [Vec<B>], from: usize) {
+    let n = spec.n;
+    let np = spec.periodic.len();
+    let last_ruled = n - spec.exemptions;
+    for t in from..n - 1 {
+        let cur: Vec<B> = (0..spec.main_width).map(|j| main[j][t]).collect();
+        let periodic: Vec<B> = (0..np).map(|p| spec.periodic_at(p, t)).collect();
+        for j in 0..spec.main_width {
+            if t >= last_ruled && spec.free_tail[j] {
+                continue;
+            }
+            main[j][t + 1] = spec.next_value::<B>(j, &cur, &periodic);
+        }
+    }
+}
+
+/// index of the first public value of each assertion
+fn assertion_value_positions<B: StarkField>(spec: &Spec<B>) -> Vec<usize> {
+    let mut pos = 0;
+    spec.assertions
+        .iter()
+        .map(|a| {
+            let p = pos;
+            pos += a.num_values(spec.n);
+            p
+        })
+        .collect()
+}
+
+/// see the call site; returns (main trace, claimed public inputs, auxiliary fault, fault name)
+#[allow(clippy::type_complexity)]
+fn crafted_cancellation<B: StarkField>(spec: &Spec<B>, clean: &[Vec<B>], frng: &mut Rng) -> Option<(Vec<Vec<B>>, GenInputs<B>, Option<AuxFault>, &'static str)> {
+    use crate::genair::AssertKind;
+    let n = spec.n;
+    let w = spec.main_width;
+    let mut main = clean.to_vec();
+    let positions = assertion_value_positions(spec);
+    // single assertions on step 0: (assertion index, column)
+    let at_zero: Vec<(usize, usize)> =
+        spec.assertions.iter().enumerate().filter(|(_, a)| matches!(a.kind, AssertKind::Single { step: 0 })).map(|(i, a)| (i, a.column)).collect();
+    let e: B = {
+        let v = rand_elem::<B>(frng);
+        if v == B::ZERO { B::ONE } else { v }
+    };
+    // residue of 1 / Z_T at x = 1, Z_T = (x^n - 1) / prod_{k=1..exemptions} (x - g^(n-k))
+    let g = B::get_root_of_unity(n.ilog2());
+    let mut rho = B::ONE;
+    for k in 1..=spec.exemptions {
+        rho *= B::ONE - g.exp_vartime(((n - k) as u64).into());
+    }
+    rho /= B::from(n as u32);
+    let mut keep: Vec<usize> = Vec::new(); // assertions whose claimed value stays the honest one
+    let mut aux_fault = None;
+    let sub = tape::f("fault.crafted.kind", 5);
+    let name = match sub {
+        0 => {
+            // two assertions of one boundary group (step 0): errors e and -e
+            if at_zero.len() < 2 {
+                return None;
+            }
+            let i = tape::f("fault.crafted.a", at_zero.len() as u64) as usize;
+            let mut j = tape::f("fault.crafted.b", at_zero.len() as u64 - 1) as usize;
+            if j >= i {
+                j += 1;
+            }
+            main[at_zero[i].1][0] += e;
+            main[at_zero[j].1][0] -= e;
+            recompute_forward(spec, &mut main, 0);
+            keep.extend([at_zero[i].0, at_zero[j].0]);
+            "crafted_two_assertions_cancel"
+        },
+        1 => {
+            // an assertion on step 0 against a transition constraint on step 0
+            if at_zero.is_empty() {
+                return None;
+            }
+            let (ai, c) = at_zero[tape::f("fault.crafted.a", at_zero.len() as u64) as usize];
+            let t = tape::f("fault.crafted.t", w as u64) as usize;
+            main[c][0] -= e * rho;
+            recompute_forward(spec, &mut main, 0);
+            main[t][1] += e;
+            recompute_forward(spec, &mut main, 1);
+            keep.push(ai);
+            "crafted_assertion_against_transition"
+        },
+        2 => {
+            // two transition constraints on one step: errors e and -e
+            if w < 2 || n - spec.exemptions < 2 {
+                return None;
+            }
+            let s = tape::f("fault.crafted.step", (n - spec.exemptions) as u64) as usize;
+            let t1 = tape::f("fault.crafted.a", w as u64) as usize;
+            let mut t2 = tape::f("fault.crafted.b", w as u64 - 1) as usize;
+            if t2 >= t1 {
+                t2 += 1;
+            }
+            main[t1][s + 1] += e;
+            main[t2][s + 1] -= e;
+            recompute_forward(spec, &mut main, s + 1);
+            "crafted_two_transitions_cancel"
+        },
+        3 => {
+            // a main assertion on step 0 against the auxiliary assertion of one column (step 0)
+            if at_zero.is_empty() || spec.aux_width == 0 {
+                return None;
+            }
+            let (ai, c) = at_zero[tape::f("fault.crafted.a", at_zero.len() as u64) as usize];
+            let k = 1 + tape::f("fault.crafted.delta", 1000) as i64;
+            main[c][0] += B::from(k as u32);
+            recompute_forward(spec, &mut main, 0);
+            keep.push(ai);
+            aux_fault = Some(AuxFault { col: tape::f("fault.auxcol", spec.aux_width as u64) as usize, step: 0, delta: -k, rebuild_forward: true });
+            "crafted_main_assertion_against_aux_assertion"
+        },
+        _ => {
+            // a main transition against an auxiliary transition on the same step
+            if spec.aux_width == 0 || n - spec.exemptions < 2 {
+                return None;
+            }
+            let s = tape::f("fault.crafted.step", (n - spec.exemptions) as u64) as usize;
+            let t = tape::f("fault.crafted.t", w as u64) as usize;
+            let k = 1 + tape::f("fault.crafted.delta", 1000) as i64;
+            main[t][s + 1] += B::from(k as u32);
+            recompute_forward(spec, &mut main, s + 1);
+            aux_fault = Some(AuxFault { col: tape::f("fault.auxcol", spec.aux_width as u64) as usize, step: s + 1, delta: -k, rebuild_forward: true });
+            "crafted_main_transition_against_aux_transition"
+        },
+    };
+    // the claimed statement: every asserted value read off the crafted trace, except the ones the
+    // crafted errors are aimed at, which keep their honest values
+    let honest = public_inputs(spec, clean);
+    let mut claimed = public_inputs(spec, &main);
+    for ai in keep {
+        let p = positions[ai];
+        claimed.values[p] = honest.values[p];
+    }
+    Some((main, claimed, aux_fault, name))
 }
 
 // C29
